@@ -15,7 +15,22 @@ const PROTOS: [&str; 7] = ["hs", "ka", "ps", "bf", "cs", "ln", "lf"];
 fn gen_case(g: &mut Gen, peers: u64, len: usize, sync: bool) -> Vec<String> {
     let mut ops = vec![format!("cfg {} {} {} {}", peers + 2, peers + 1, peers + 1, g.rng.range(0, 2))];
     if g.rng.chance(2, 3) { ops.push("startsync".into()); }
-    let emit = |ops: &mut Vec<String>, o: String, sync: bool| { ops.push(o); if sync { ops.push("confirmall".into()); } };
+    // sync: confirm at once, or (lazily) only after the requests reached the responder and were perhaps answered —
+    // both stay inside the domain of `initiator_conformant_delayed`
+    let lazy = sync && g.rng.chance(1, 2);
+    let mut r2 = g.rng.fork();
+    let mut emit = |ops: &mut Vec<String>, o: String, sync: bool| {
+        ops.push(o);
+        if sync {
+            if lazy {
+                for _ in 0..r2.below(4) {
+                    let p = r2.below(peers);
+                    ops.push(if r2.chance(1, 2) { format!("arrive {p}") } else { format!("reply {p} {} {}", *r2.pick(&PROTOS), r2.below(4)) });
+                }
+            }
+            ops.push("confirmall".into());
+        }
+    };
     for p in 0..peers {
         if g.rng.chance(4, 5) {
             // bring the peer up: include, promote+connect, handshake (version 13 or 15)
@@ -87,6 +102,7 @@ pub fn run_case(case: &Case, out: &mut Out) {
         if s.sends >= 5 { out.cov("five-sends"); }
         if s.delivered >= 1 { out.cov("reply-delivered"); }
         if s.observed == 0 { out.cov("conformant-run"); } else { out.cov("violation-observed"); }
+        if s.in_domain { out.cov("in-theorem-domain"); } else { out.cov("outside-theorem-domain"); }
         if s.sends >= 5 && s.delivered >= 1 { out.nontrivial(); }
     }
 }
